@@ -323,6 +323,13 @@ def chunk_detect(chunk, acc):
                 acc.states += 1
                 for nonce in (NONCES[0], NONCES[2]):
                     detect_case(acc, image, stub, True, True, b"", nonce, meta)
+    if chunk["bucket"] == 0:
+        # a stub that itself begins with "MZ" (dec ebp / pop edx, the executable-header prologue), and an empty stub
+        # whose nonce begins with "MZ": the raw file then starts with 4d 5a without being a plain PE image
+        for stub, nonce in ((b"MZ", NONCES[2]), (b"MZRE", NONCES[2]), (b"MZ\x90\x00", NONCES[0]), (b"MZARUH\x89\xe5", NONCES[2]), (b"", b"MZ\x12\x34"), (b"", b"MZRE")):
+            for marker, size_ok in ((True, True), (True, False), (False, True)):
+                acc.states += 1
+                detect_case(acc, image, stub, marker, size_ok, b"" if size_ok else b"\x00", nonce, meta)
     for stub in mine:
         acc.states += 1
         in_range_marker = len(stub) + 3 <= 1023
